@@ -137,6 +137,7 @@ class Interp:
         s.steps = 0
         s.max_steps = s.opts.get('max_steps', 50_000_000)
         s.globals = {}          # name -> Region
+        s.journal = None        # undo log of memory writes inside a candidate raw helper (rawhelper.py)
         s.global_writes = set() # global regions stored to (function-local statics, file-scope state)
         s.log_access = s.opts.get('log_access', True)
         s.assumptions = set()
@@ -308,6 +309,8 @@ class Interp:
             s.writes.append((ptr.reg, k[1], size))
         if s.par is not None and ptr.reg.owner != ('par', s.par):
             s.par_log.append(('w', ptr.reg, k[1], size, s.cur_iter))
+        if s.journal is not None:
+            s.journal.append((k, s.mem.get(k)))
         if ptr.reg.kind == 'global':
             s.global_writes.add(ptr.reg)
         if ptr.reg.kind == 'param':
@@ -777,6 +780,7 @@ class Interp:
                          'ugt': d.cval() > 0, 'uge': d.cval() >= 0}[pred])
             hook = s.opts.get('decide')
             if hook:
+                s.cmp_width = ty[1] if ty[0] == 'i' else 64     # for hooks that model signed machine integers
                 r = hook(pred, a, b)
                 if r is not None:
                     return int(r)
@@ -800,6 +804,38 @@ class Interp:
             raise Incomplete('recursion too deep')
         s.depth += 1
         s.stack.append((name, None))
+        hook = s.opts.get('raw_helper')
+        if hook is not None:
+            from . import rawhelper
+            if rawhelper.candidate(s.mod, name, fn, args):
+                # a small helper on Element operands: if it turns out to do raw integer arithmetic on the representations, its
+                # partial effects are undone and it is decided on its own (kernel mode, all representations)
+                outer = s.journal
+                s.journal = []
+                nw, nr = len(s.writes), len(s.reads)
+                try:
+                    return s._run(fn, env)
+                except Incomplete as e:
+                    if 'outside a contracted kernel' not in str(e) and 'data-dependent comparison on field values' not in str(e):
+                        raise
+                    for k_, old_ in reversed(s.journal):
+                        if old_ is None:
+                            s.mem.pop(k_, None)
+                        else:
+                            s.mem[k_] = old_
+                    del s.writes[nw:]
+                    del s.reads[nr:]
+                    s.journal = None
+                    r = hook(s, name, args)
+                    if r is NotImplemented:
+                        raise
+                    return r
+                finally:
+                    if outer is not None and s.journal:
+                        outer.extend(s.journal)
+                    s.journal = outer
+                    s.stack.pop()
+                    s.depth -= 1
         try:
             return s._run(fn, env)
         finally:
@@ -1079,6 +1115,38 @@ class Interp:
                     raise Incomplete('gather index %r' % (k,))
                 out.append(s.load_cell(base.add(as_poly(k) * scale if not isinstance(k, int) else k * scale), 8))
             return out
+        m_ = re.match(r'llvm\.x86\.avx512\.mask\.(gather|scatter)\.qpq\.512$', name)
+        if m_:
+            # gather:  (passthru, base, <8 x i64> index, <8 x i1> mask, scale) -> lanes;  scatter: (base, mask, index, values, scale),
+            # lanes stored from the lowest to the highest (the highest wins on overlap)
+            if m_.group(1) == 'gather':
+                src0, base, idx, msk, scale = args
+                vals = None
+            else:
+                base, msk, idx, vals, scale = args
+                src0 = None
+            if not isinstance(base, Ptr) or not isinstance(scale, int):
+                raise Incomplete('%s with a symbolic base / scale' % m_.group(1))
+            out = []
+            for i in range(8):
+                mk = msk[i] if isinstance(msk, list) else ((msk >> i) & 1 if isinstance(msk, int) else None)
+                if not isinstance(mk, int):
+                    raise Incomplete('%s with a symbolic mask' % m_.group(1))
+                if not mk & 1:
+                    if vals is None:
+                        out.append(src0[i] if isinstance(src0, list) else src0)
+                    continue
+                k = idx[i] if isinstance(idx, list) else idx
+                if isinstance(k, int):
+                    k = to_signed(k, 64)
+                elif not isinstance(k, Poly):
+                    raise Incomplete('%s index %r' % (m_.group(1), k))
+                pk = base.add(as_poly(k) * scale if not isinstance(k, int) else k * scale)
+                if vals is None:
+                    out.append(s.load_cell(pk, 8))
+                else:
+                    s.store_cell(pk, vals[i] if isinstance(vals, list) else vals, 8)
+            return out if vals is None else None
         m_ = re.match(r'llvm\.(ctlz|cttz|ctpop|bswap|bitreverse)\.i(\d+)$', name)
         if m_:
             x = args[0]
